@@ -68,6 +68,11 @@ def gen_case(rng, s):
     nonnull = t[0] == "nonnull"
     use_default_value = arg.get("default") is not None and rng.random() < 0.5
     lit = arg["default"] if use_default_value else gen.gen_literal(rng, s, t, good=True)
+    r2 = random.Random(rng.random())
+    tl_ = t[1] if nonnull else t
+    if not use_default_value and tl_[0] == "list" and tl_[1][0] != "list" and not (tl_[1][0] == "nonnull" and tl_[1][1][0] == "list") \
+            and r2.random() < 0.6:
+        lit = ("list", [gen.gen_literal(r2, s, tl_[1], good=True, nullable=False)])
     if nonnull and lit == ("null",):
         lit = gen.gen_literal(rng, s, t[1], good=True, nullable=False)
     decls, variables, sels, group = [], OrderedDict(), [], []
@@ -91,6 +96,18 @@ def gen_case(rng, s):
             variables["w"] = wj
             sels.append("nested: %s(x: %s)" % (fn, gen.lit_sdl(nlit)))
             group.append("nested")
+    # a list position given ONE value without brackets (`x: v` stands for `x: [v]`), the value possibly holding a variable
+    tl = t[1] if nonnull else t
+    if tl[0] == "list" and lit[0] == "list" and len(lit[1]) == 1 and lit[1][0] != ("null",) and lit[1][0][0] != "list":
+        item = lit[1][0]
+        sels.append("single: %s(x: %s)" % (fn, gen.lit_sdl(item)))
+        group.append("single")
+        sn = nest_variable(rng, s, tl[1], item, "sv") if item[0] == "obj" else None
+        if sn and not (sn[2] is None and sn[1][0] == "nonnull"):
+            decls.append("$sv: %s" % gen.type_sdl(sn[1]))
+            variables["sv"] = sn[2]
+            sels.append("singlenested: %s(x: %s)" % (fn, gen.lit_sdl(sn[0])))
+            group.append("singlenested")
     if use_default_value:
         sels.append("sdef: %s" % fn)
         group.append("sdef")
